@@ -1,4 +1,5 @@
 import RainModel.Model.LoopStep
+import RainModel.Lemmas.LoopFrame
 /-!
 C19 — private torrents use only their trackers.  Theorems over M-LOOP (the model of the repaired
 code, finding C19-F1); the tie to the code is the `private` suite.
@@ -47,5 +48,17 @@ theorem no_pex_out (m : M) (k : Nat) (hasMeta : Bool) (size : Nat) (hasPex : Boo
         · simp [hk]
         · simpa [hk] using hno q hq
       split <;> simpa [onSt] using key
+
+/-- **private_magnet_refused.** Metadata fetched from peers is never adopted when it turns out to be
+marked private (BEP 27: such a torrent must only be obtained from its tracker): whatever message
+arrives, `info` keeps its value and no address learnt so far is used. -/
+theorem private_magnet_refused (m : M) (k i len : Nat) (good : Bool) (hp : m.1.cfg.isPrivate = true) :
+    (handleMetadataData m k i len good).1.info = m.1.info := by
+  unfold handleMetadataData
+  dsimp only
+  repeat' split
+  all_goals first
+    | simp
+    | (rename_i h; simp [hp] at h)
 
 end Rain.Props.C19
